@@ -3,12 +3,12 @@ import itertools, json, random
 import drv_udp
 
 LEVEL = "model_checking"
-OUT = ["reply", "none", "late", "two", "icmp", "lost"]
+OUT = ["reply", "none", "late", "two", "icmp", "lost", "gone"]
 
 
 def sig(tr, v):
     sc = tr["scenario"]
-    first = next((s for s in sc["script"] if s not in ("none", "late")), "all_unanswered")
+    first = next((s for s in sc["script"] if s not in ("none", "late", "gone")), "all_unanswered")
     return dict(mode=sc["mode"], first_answer=first)
 
 
@@ -31,12 +31,20 @@ def run(ctx):
         for script in itertools.product(OUT, repeat=r):
             for timeout in (2, 6):
                 T.append(drv_udp.run_virtual(script, r, timeout, payload=bytes(rnd.randrange(256) for _ in range(rnd.choice([1, 40, 1400]))) if rnd.random() < 0.2 else b"REQUEST-\x00\xff",
-                                             reply_tail=rnd.choice(tails)))
+                                             reply_tail=rnd.choice(tails), v6=rnd.random() < 0.25))      # a quarter of the scripts against an IPv6 agent
     # real sockets on the loopback interface
     lb = [("reply",), ("none", "reply"), ("none", "none"), ("icmp",), ("none", "none", "reply"), ("two",), ("late", "reply")]
     if not q:
         lb += [s for r in (1, 2, 3) for s in itertools.product(["reply", "none", "late", "two"], repeat=r)] + [("icmp",)] * 3
     LB = [drv_udp.run_loopback(s, len(s), 0.1) for s in lb]
+    import socket
+    try:
+        _s = socket.socket(socket.AF_INET6, socket.SOCK_DGRAM)
+        _s.bind(("::1", 0))
+        _s.close()
+        LB += [drv_udp.run_loopback(s, len(s), 0.1, v6=True) for s in lb[:5]]      # the same on the IPv6 loopback, where the sandbox has one
+    except OSError:
+        pass
     # real sockets and a real scheduler: a reply that misses its 100 ms window under load is not a property violation.
     # A loopback script is reported only if it fails three times in a row (machinery noise is never a VIOLATION).
     for attempt in range(2):
@@ -47,13 +55,13 @@ def run(ctx):
             break
         for i in bad:
             sc = LB[i]["scenario"]
-            LB[i] = drv_udp.run_loopback(sc["script"], sc["retries"], 0.2 * (attempt + 1))
+            LB[i] = drv_udp.run_loopback(sc["script"], sc["retries"], 0.2 * (attempt + 1), v6=bool(sc.get("v6")))
     T += LB
     ctx.evaluations += len(T)
     verdicts = ctx.validate("Trace_Transport", T, chunk=4000)
     ctx.judge(T, verdicts, signature=sig, nontrivial=lambda tr, v: json.dumps([tr["scenario"]["script"], tr["scenario"]["timeout"], tr["scenario"]["mode"]]))
-    ctx.rule = ("every outcome script over {reply, none, late, two, icmp, lost} of length = retries in 1..4 (1554 scripts; 1..5 = 9330 in the thorough tier) x timeout in {2, 6} on the virtual-time "
-                "loop with recording transports (replies ending in 00 / NULL / endOfMibView octets included), plus %d scripts on real loopback sockets "
+    ctx.rule = ("every outcome script over {reply, none, late, two, icmp, lost, gone (connection_lost(None))} of length = retries in 1..4 (2800 scripts; 1..5 = 19607 in the thorough tier) x timeout in {2, 6} on the virtual-time "
+                "loop with recording transports (replies ending in 00 / NULL / endOfMibView octets included), IPv4 and IPv6 peers, plus %d scripts on real loopback sockets "
                 "(scripted responder, closed port for ICMP, /proc/self/fd balance); distinct = distinct (script, timeout, mode)") % len(lb)
     ctx.exhaustive = True
     ctx.assumptions = ["virtual tier: asyncio's datagram contract (nothing is delivered after close/abort; sendto on a closed transport is discarded)",
@@ -62,5 +70,5 @@ def run(ctx):
 
 def replay(ctx, path):
     sc = json.load(open(path))["trace"]["scenario"]
-    T = [drv_udp.run_virtual(sc["script"], sc["retries"], sc["timeout"] // 1000, bytes(sc.get("payload", b"REQ")))] if sc["mode"] == "virtual" else [drv_udp.run_loopback(sc["script"], sc["retries"], 0.05)]
+    T = [drv_udp.run_virtual(sc["script"], sc["retries"], sc["timeout"] // 1000, bytes(sc.get("payload", b"REQ")), v6=bool(sc.get("v6")))] if sc["mode"] == "virtual" else [drv_udp.run_loopback(sc["script"], sc["retries"], 0.05, v6=bool(sc.get("v6")))]
     ctx.judge(T, ctx.validate("Trace_Transport", T), signature=sig)
